@@ -39,6 +39,7 @@ def run(ctx):
     tier, seed, log = ctx["tier"], ctx["seed"], ctx["log"]
     rnd = random.Random(seed * 43 + 1)
     import qrcode
+    from qrcode import util
     R = Res("print_ascii {plain, invert, tty} x borders 0..6 and print_tty on symbols of several versions, on objects that are "
             "fresh / already compiled / given more data after a compile; scripted isatty. P2: Model.printAscii / printTty text; "
             "P3: Spec.readHalfBlocks / readTty (independent glyph and escape readers) = Spec.frame of a fresh object's symbol; "
@@ -65,7 +66,7 @@ def run(ctx):
                     if hist == "made":
                         q.make()
                     elif hist == "add-after-make":
-                        q.make(); q.add_data(extra, optimize=0); calls.append(extra)
+                        q.make(); q.add_data(util.QRData(extra) if len(extra) % 2 else extra, optimize=0); calls.append(extra)
                     f = qrcode.QRCode(version=v, border=b, mask_pattern=q.mask_pattern)
                     [f.add_data(d, optimize=0) for d in calls]; f.make()
                     M = [list(map(bool, row)) for row in f.modules]
